@@ -104,10 +104,10 @@ def check(rep, tier):
                     rep.violation("history parallel-vs-sequential", "%s: first sequential and parallel studies of the same object differ" % lab, dict(run=lab))
                 # change the object in memory: another shelf coefficient, another program, another kinetic constant; the file on disk is rewritten
                 # with something else entirely (the object holds its own constants)
-                S.k = dict(S.k, s0=S.k["s0"] * 0.6)
+                S.k = dict(S.k, s0=S.k["s0"] * 0.8)
                 prog2 = dict(prog, rate=prog["rate"] * 1.5)
                 S.opcond = sr.gen_opcond.build(prog2, impl.opcond_mod())
-                S.const["b"] = 27.0
+                S.const["b"] = 30.0
                 open(path, "w").write(yaml.safe_dump(dict(over, kinetics={"a": 22.0, "b": 12.0})))
                 S.run(how="sequential"); t3, _ = table(S)      # a sequential study of the changed object (there was a sequential study before the change)
                 S.run(how="async"); t2, idx2 = table(S)
